@@ -372,7 +372,84 @@ theorem sublist_filterMap_of_imp {β γ : Type} (f f' : β → Option γ)
       rw [h a b h']
       exact List.Sublist.cons_cons _ ih
 
+
+/-- the headline equivalence (restated as `Properties.C02.islands_eq_spec`; kept here so that C11 can use it
+    without importing C02's regenerated definitions) -/
+theorem islands_eq_spec_core (hl : IsLabelling g lab n) (S : Px → Prop) :
+    (∃ I ∈ findIslands g lab n none, ∀ p, p ∈ I.pixels ↔ S p) ↔ IsIsland g S := by
+  constructor
+  · rintro ⟨I, hI, hS⟩
+    obtain ⟨k, _, hk⟩ := mem_findIslands.1 hI
+    obtain ⟨hpix, _, ⟨p0, hp0, hs0⟩, _, _⟩ := islandOf_some hl (Nat.succ_ne_zero k) hk
+    have ⟨g0, l0⟩ := (hpix p0).1 hp0
+    have a0 : g.inA p0 = true := inA_of_label hl g0 (by omega)
+    refine ⟨p0, a0, ?_, p0, (hS p0).1 hp0, hs0⟩
+    intro q
+    rw [← hS q, hpix q]
+    constructor
+    · rintro ⟨gq, lq⟩
+      exact (hl.eq_iff p0 q a0 (inA_of_label hl gq (by omega))).1 (by omega)
+    · intro c
+      have aq := conn_right c
+      exact ⟨inGrid_of_inA aq, by rw [← (hl.eq_iff p0 q a0 aq).2 c]; exact l0⟩
+  · rintro ⟨p0, a0, hS, q, hq, hs⟩
+    have cq := (hS q).1 hq
+    have aq := conn_right cq
+    have lq : lab q = lab p0 := ((hl.eq_iff p0 q a0 aq).2 cq).symm
+    have h0 := label_ne_zero hl a0
+    have hn := hl.le_n p0 a0
+    obtain ⟨I, hI⟩ := islandOf_isSome (inside := none) hl h0 (inGrid_of_inA aq) lq hs (by intro f hf; cases hf)
+    refine ⟨I, mem_findIslands.2 ⟨lab p0 - 1, by omega, by rw [Nat.sub_add_cancel (by omega)]; exact hI⟩, ?_⟩
+    obtain ⟨hpix, _⟩ := islandOf_some hl h0 hI
+    intro p
+    rw [hpix p, hS p]
+    constructor
+    · rintro ⟨gp, lp⟩
+      exact (hl.eq_iff p0 p a0 (inA_of_label hl gp (by omega))).1 lp.symm
+    · intro c
+      have ap := conn_right c
+      exact ⟨inGrid_of_inA ap, ((hl.eq_iff p0 p a0 ap).2 c).symm⟩
+
 end helpers
+
+/-! ### glue: `find_islands` assembled from regenerated pieces equals the hand model -/
+
+theorem any_congr_mem {β : Type} {l : List β} {f h : β → Bool} (e : ∀ x ∈ l, f x = h x) : l.any f = l.any h := by
+  induction l with
+  | nil => rfl
+  | cons a t ih =>
+    simp only [List.any_cons]
+    rw [e a (List.mem_cons_self), ih (fun x hx => e x (List.mem_cons_of_mem _ hx))]
+
+theorem findIslandsGen_eq {seedScope ownLabel maskLabel : Nat → Nat}
+    (hs : ∀ k, seedScope k = 1) (ho : ∀ k, ownLabel k = k + 1) (hm : ∀ k, maskLabel k = k + 1)
+    (g : Grid) (lab : Px → Nat) (n : Nat) (inside : Option (Px → Bool)) :
+    findIslandsGen seedScope ownLabel maskLabel g lab n inside = findIslands g lab n inside := by
+  unfold findIslandsGen findIslands islandOf
+  congr 1
+  funext k
+  rw [hs, ho, hm]
+  congr 1
+
+theorem gridOfSnr_A {floodTest seedTest : Int → Int → Bool} {floodFinite : Nat} (blankOn : Px → Bool)
+    (hf : ∀ s c, floodTest s c = decide (c ≤ s)) (hfin : floodFinite = 1)
+    (H W : Nat) (snr : Px → Option Int) (flood seed : Int) (p : Px) :
+    (gridOfSnr floodTest seedTest floodFinite blankOn H W snr flood seed).A p = true ↔
+      ∃ s, snr p = some s ∧ flood ≤ s := by
+  simp only [gridOfSnr]
+  cases h : snr p with
+  | none => simp [hfin]
+  | some s => simp [hf]
+
+theorem gridOfSnr_Sd {floodTest seedTest : Int → Int → Bool} {floodFinite : Nat} (blankOn : Px → Bool)
+    (hs : ∀ s c, seedTest s c = decide (c < s))
+    (H W : Nat) (snr : Px → Option Int) (flood seed : Int) (p : Px) :
+    (gridOfSnr floodTest seedTest floodFinite blankOn H W snr flood seed).Sd p = true ↔
+      ∃ s, snr p = some s ∧ seed < s := by
+  simp only [gridOfSnr]
+  cases h : snr p with
+  | none => simp
+  | some s => simp [hs]
 
 /-! ### the order law the numeric seed-monotonicity needs -/
 
